@@ -21,7 +21,7 @@ RULE = (
     "sqrt(n_nonzero*tol)/scale (derivation in DESIGN C10); NaN set = independent three-valued reference of the "
     "documented filters (cut-off ties free); finite weights > 0; stats['converged'] == (var < tol). Non-trivial = "
     "converged, >=3 retained bins, >=1 bin masked by a filter, input not already balanced. Distinct by sha1."
-    " Also: options left out of the call (documented defaults, incl. the mode flags) with the reference using the defaults; real-valued counts (matrix scaled by 1/64 or 1/4); matrices with only cis or only trans data balanced in the mode left with nothing; an all-bin-filters-off preset; stats['divisive_weights'] is False; CLI: --force over a column stored by a much stricter earlier run, options left off the command line."
+    " Also: options left out of the call (documented defaults, incl. the mode flags) with the reference using the defaults; real-valued counts (matrix scaled by 1/64 or 1/4); matrices with only cis or only trans data balanced in the mode left with nothing; an all-bin-filters-off preset; very regular maps (one count value everywhere, a few weak bins: more than half of the marginals exactly equal, so the MAD is 0); a third of the plain cases run an earlier, short balancing with other filter thresholds on the same Cooler object first; stats['divisive_weights'] is False; CLI: --force over a column stored by a much stricter earlier run, options left off the command line."
 )
 ASSUMPTIONS = [
     "'no remaining data' is read at the granularity the code implements: a whole matrix / chromosome without a non-zero marginal (DESIGN section 4 rule 7)",
@@ -45,6 +45,17 @@ def matrices(draw, min_bins=6, max_bins=24, max_chroms=4):
     A = np.zeros((n, n), dtype=int)
     iu = np.triu_indices(n)
     A[iu] = vals
+    if draw(st.integers(0, 7)) == 0 and n >= 6:
+        # a very regular map (saturated / binarised / constant counts): one value everywhere, except that a few weak bins
+        # only touch a minority of the others - more than half of the marginals are then exactly equal (MAD = 0)
+        c_ = draw(st.sampled_from([1, 1, 2, 5]))
+        A[iu] = c_
+        weak = draw(st.lists(st.integers(0, n - 1), min_size=1, max_size=2, unique=True))
+        for w_ in weak:
+            keep = set(draw(st.lists(st.integers(0, n - 1), min_size=1, max_size=max(1, n // 3), unique=True))) | {w_}
+            for j_ in range(n):
+                if j_ not in keep:
+                    A[min(w_, j_), max(w_, j_)] = 0
     empty = draw(st.lists(st.integers(0, n - 1), max_size=max(1, n // 6), unique=True))
     isolated = draw(st.lists(st.integers(0, n - 1), max_size=2, unique=True))
     for i in empty:
@@ -214,6 +225,12 @@ def check_balance(case, ctx: Ctx):
         path = make_cooler(ctx, case)
         try:
             clr = cooler.Cooler(path)
+            if (len(case["rows"]) + n) % 3 == 0:
+                # history: an EARLIER run on the same Cooler object with other filter thresholds (same mode and ignore_diags):
+                # a short run with the MAD-max filter on and the count filters off
+                _ = call("balance_cooler (earlier run on the same object, other thresholds)", run_balance, clr,
+                         dict(o, mad_max=3, min_count=0, min_nnz=0, x0=None, blacklist=None, max_iters=2,
+                              omit=[k for k in o.get("omit", []) if k in ("cis_only", "trans_only", "ignore_diags", "tol", "rescale")]))
             w, stats = call("balance_cooler", run_balance, clr, o, **kw)
         finally:
             ctx.clean(path)
